@@ -2492,6 +2492,14 @@ hsStateDetermined:
  */
                     return MATRIXSSL_SUCCESS;
                 }
+                if (hsLen != ssl->fragLenStored)
+                {
+                    /* Every fragment of a message carries the same total
+                        length: the one fragMessage was allocated with */
+                    ssl->err = SSL_ALERT_DECODE_ERROR;
+                    psTraceErrr("Handshake fragment length mismatch\n");
+                    return MATRIXSSL_ERROR;
+                }
 /*
                 Still could be a duplicate fragment.  Make sure we haven't
                 seen it before.  If we haven't this routine also returns
